@@ -1,31 +1,55 @@
-//! Native pre-flight for the c01_cell target: valid encodings of universe types, then byte mutations.
+//! Native pre-flight for the fuzz targets: fuzzsmoke <c01_cell|c08_decode> <secs> [corpus dir]
+//! Seeds = generated valid inputs (and corpus files if given); random byte mutations; the target's
+//! own oracle decides. Finds oracle false alarms in seconds instead of after a 13-minute ASan build.
 use vkit::checks::c17::{dynamic_witness, tables};
 use vkit::wire::value::ref_encode;
 fn main() {
-    let secs: u64 = std::env::args().nth(1).and_then(|s| s.parse().ok()).unwrap_or(20);
+    let args: Vec<String> = std::env::args().collect();
+    let target = args.get(1).cloned().unwrap_or_else(|| "c01_cell".into());
+    let secs: u64 = args.get(2).and_then(|s| s.parse().ok()).unwrap_or(20);
+    let mut seeds: Vec<Vec<u8>> = vec![];
+    if let Some(dir) = args.get(3) {
+        for e in std::fs::read_dir(dir).expect("corpus dir").flatten() {
+            if let Ok(b) = std::fs::read(e.path()) {
+                seeds.push(b);
+            }
+        }
+    }
     let tb = tables();
-    let mut x = 0x9E3779B97F4A7C15u64;
+    let mut x = 0x9E3779B97F4A7C15u64 ^ secs;
     let mut next = || { x ^= x << 13; x ^= x >> 7; x ^= x << 17; x };
     let mut n = 0u64;
     let t0 = std::time::Instant::now();
     while t0.elapsed().as_secs() < secs {
-        let ti = (next() % tb.types.len() as u64) as usize;
-        let t = &tb.types[ti];
-        let mut cell = ref_encode(t, &dynamic_witness(t, next())).unwrap_or_default();
-        for _ in 0..(next() % 4) {
-            if cell.is_empty() { break; }
-            let i = (next() % cell.len() as u64) as usize;
-            match next() % 5 {
-                0 => cell[i] = next() as u8,
-                1 => cell[i] = 0,
-                2 => cell[i] = 0xff,
-                3 => { cell.truncate(i); }
-                _ => { cell.insert(i, (next() % 3) as u8); }
+        let mut data: Vec<u8> = if !seeds.is_empty() && next() % 2 == 0 {
+            seeds[(next() % seeds.len() as u64) as usize].clone()
+        } else if target == "c01_cell" {
+            let ti = (next() % tb.types.len() as u64) as usize;
+            let t = &tb.types[ti];
+            let mut d = (ti as u16).to_le_bytes().to_vec();
+            d.extend(ref_encode(t, &dynamic_witness(t, next())).unwrap_or_default());
+            d
+        } else {
+            (0..(next() % 64)).map(|_| next() as u8).collect()
+        };
+        for _ in 0..(next() % 5) {
+            if data.len() <= 2 { break; }
+            let i = 2 + (next() % (data.len() as u64 - 2)) as usize;
+            match next() % 7 {
+                0 => data[i] = next() as u8,
+                1 => data[i] = 0,
+                2 => data[i] = 0xff,
+                3 => data.truncate(i),
+                4 => { let b = data[i]; data.insert(i, b); }
+                5 => { let j = 2 + (next() % (data.len() as u64 - 2)) as usize; let (a, b) = (i.min(j), i.max(j)); let chunk: Vec<u8> = data[a..b].to_vec(); let at = a; for (k, c) in chunk.into_iter().enumerate() { data.insert(at + k, c); } }
+                _ => data.insert(i, (next() % 3) as u8),
             }
+            if data.len() > 4096 { data.truncate(4096); }
         }
-        let mut data = (ti as u16).to_le_bytes().to_vec();
-        data.extend_from_slice(&cell);
-        vkit::fuzzing::c01_cell(&data);
+        match target.as_str() {
+            "c01_cell" => vkit::fuzzing::c01_cell(&data),
+            _ => vkit::fuzzing::c08_decode(&data),
+        }
         n += 1;
     }
     println!("{n} inputs ok");
